@@ -202,7 +202,34 @@ func BuildEngine(c *Case, reg prometheus.Registerer) (queryEngine, []*mstore.Sto
 		stores = append(stores, st)
 		remotes = append(remotes, engine.NewLocalEngine(ro, st))
 	}
-	return engine.NewDistributedEngine(eo, api.NewStaticEndpoints(remotes)), stores, nil
+	vis := len(remotes)
+	if EndpointsAtBuild >= 0 && EndpointsAtBuild < vis {
+		vis = EndpointsAtBuild
+	}
+	ep := &dynEndpoints{engines: remotes, visible: vis}
+	lastEndpoints = ep
+	return engine.NewDistributedEngine(eo, ep), stores, nil
+}
+
+// dynEndpoints is a RemoteEndpoints whose list can grow after the engine was built
+// (remote engines discovered later): Engines() is meant to be asked per query.
+type dynEndpoints struct {
+	engines []api.RemoteEngine
+	visible int
+}
+
+func (d *dynEndpoints) Engines() []api.RemoteEngine { return d.engines[:d.visible] }
+
+// EndpointsAtBuild, if >= 0, is the number of remote engines that the endpoints of the
+// next distributed engine report while it is constructed; RevealEndpoints makes all of
+// them visible.
+var EndpointsAtBuild = -1
+var lastEndpoints *dynEndpoints
+
+func RevealEndpoints() {
+	if lastEndpoints != nil {
+		lastEndpoints.visible = len(lastEndpoints.engines)
+	}
 }
 
 // AfterBuild, if set, runs between the construction of the engine of a case and the
